@@ -1,12 +1,10 @@
 import Driver.Proto
-import Driver.C17
+import Driver.All
 import Std.Data.HashMap
 /-! `tongo_model`: reads request lines on stdin, writes one answer line per request. Unknown op ⇒ `bad-op`
 (never a default answer). -/
 open Driver
 
-def allHandlers : List (String × Handler) :=
-  primHandlers ++ c17Handlers
 
 def dispatch (tbl : Std.HashMap String Handler) (line : String) : String :=
   match (line.trimAscii.toString.splitOn " ").filter (· ≠ "") with
